@@ -130,6 +130,9 @@ func (c *FnCtx) builtin(fr *Frame, st *State, b *ssa.Builtin, args []Val, call *
 // callFunc: statically known callee (function, method or closure).
 func (c *FnCtx) callFunc(fr *Frame, st *State, fn *ssa.Function, bindings []Val, args []Val, pos token.Pos) *Val {
 	resT := fn.Signature.Results()
+	if c.isTracked(fn) {
+		c.trackCall(st, fn, args)
+	}
 	// generic instantiation wrappers etc. fall through to the generic paths
 	if spec := c.eng.specOf(fn); spec != nil && !spec.Inline && !(fn == c.fn && fr.parent == nil) {
 		return c.callWithContract(fr, st, fn, spec, args, pos)
@@ -246,6 +249,7 @@ func (c *FnCtx) callWithContract(fr *Frame, st *State, fn *ssa.Function, spec *F
 		g := c.evalBool(env, r.E)
 		o := c.obligation(st, "call", fmt.Sprintf("%s.pre.%s", shortFn(name), clauseName(r, k)), g, pos)
 		o.Desc = "precondition of " + name + ": " + r.Text
+		o.OwnerProps = spec.Props
 		c.assume(st, g)
 	}
 	if spec.Trusted {
@@ -335,7 +339,7 @@ func (c *FnCtx) callUnknown(fr *Frame, st *State, fv Val, ft types.Type, args []
 	o := c.obligation(st, "safe", "nilfunc", "(not (= "+fv.E+" 0))", pos)
 	o.Desc = "call of nil function value"
 	c.assume(st, "(not (= "+fv.E+" 0))")
-	if cb := c.eng.callbackSpec(ft); cb == nil || !cb.Pure {
+	if cb := c.eng.callbackSpecFor(ft, fv.From); cb == nil || !cb.Pure {
 		if r, ok := c.dispatchClosure(fr, st, fv, ft, args, resT, pos); ok {
 			return r
 		}
@@ -343,11 +347,36 @@ func (c *FnCtx) callUnknown(fr *Frame, st *State, fv Val, ft types.Type, args []
 	return c.callUnknownOpaque(fr, st, fv, ft, args, resT, pos)
 }
 
+// pureArgs: a pure callback sees a message through its content, not its address (two Equal messages give the same answer)
+func (c *FnCtx) pureArgs(st *State, args []Val) []Val {
+	out := make([]Val, len(args))
+	for k, a := range args {
+		out[k] = a
+		if isProtoMessageIface(a.T) && st != nil {
+			out[k] = Val{T: a.T, E: c.sc.Define("msgarg", sIface, "(mk-iface (i-tag "+a.E+") "+c.msgVal(st, "(i-val "+a.E+")")+")")}
+		}
+	}
+	return out
+}
+
+func isProtoMessageIface(t types.Type) bool {
+	it, ok := t.Underlying().(*types.Interface)
+	if !ok {
+		return false
+	}
+	for i := 0; i < it.NumMethods(); i++ {
+		if it.Method(i).Name() == "ProtoReflect" {
+			return true
+		}
+	}
+	return false
+}
+
 func (c *FnCtx) callUnknownOpaque(fr *Frame, st *State, fv Val, ft types.Type, args []Val, resT *types.Tuple, pos token.Pos) *Val {
-	cb := c.eng.callbackSpec(ft)
+	cb := c.eng.callbackSpecFor(ft, fv.From)
 	if cb != nil && cb.Pure {
-		c.assumed["callback "+cb.Name+" is a deterministic function of its arguments"] = true
-		all := append([]Val{{T: ft, E: fv.E}}, args...)
+		c.assumed["callback "+cb.Name+" is a deterministic function of its arguments (messages by content)"] = true
+		all := append([]Val{{T: ft, E: fv.E}}, c.pureArgs(st, args)...)
 		r := c.uninterp(st, "cb$"+cb.Name, all, resT)
 		c.eng.onCallback(c, st, cb, fv, args, pos)
 		return r
@@ -364,6 +393,16 @@ func (c *FnCtx) callUnknownOpaque(fr *Frame, st *State, fv Val, ft types.Type, a
 	n := c.sc.Define("cbn", sInt, c.heapGet(st, c.cbCallsComp()))
 	c.eng.onCallback(c, st, cb, fv, args, pos)
 	c.havocSet(st, m, "cb")
+	if cb != nil {
+		// the abstract content of exactly the messages the callback is allowed to write becomes unknown
+		for _, k := range cb.Writes {
+			if k < len(args) && c.ty.SortOf(args[k].T) == sIface {
+				mh := c.msgHeap()
+				c.heapSet(st, mh, "(store "+c.heapGet(st, mh)+" (i-val "+args[k].E+") "+c.sc.Fresh("cbwrote", sInt)+")")
+				c.eng.onMessageWrite(c, st, args[k], "callback "+cb.Name, pos)
+			}
+		}
+	}
 	var vs []Val
 	for k := 0; k < resT.Len(); k++ {
 		vs = append(vs, c.fresh("cbret", resT.At(k).Type(), st))
@@ -390,6 +429,30 @@ func (c *FnCtx) invoke(fr *Frame, st *State, recv Val, m *types.Func, args []Val
 	o := c.obligation(st, "safe", "nilinvoke", "(not (= (i-tag "+recv.E+") 0))", pos)
 	o.Desc = "method call on nil interface value"
 	c.assume(st, "(not (= (i-tag "+recv.E+") 0))")
+	if isProtoreflectType(recv.T) && m.Name() == "New" && shortTypeName(recv.T) == "protoreflect.Message" {
+		// m.New(): a fresh, empty message of the same type; its Interface() is a fresh Go message value
+		c.assumed["protoreflect Message.New() returns a fresh empty message of the same type"] = true
+		ref := c.newRef(st, "newmsg")
+		c.nonNil[ref] = true
+		fI := q("inv$protoreflect.Message.Interface$0")
+		c.sc.Decl("uf:"+fI, "(declare-fun "+fI+" (Iface) Iface)")
+		c.sc.Decl("emptyval", "(declare-fun |emptyval| (Int) Int)")
+		nm := c.fresh("newpref", recv.T, st)
+		c.assume(st, "(not (= (i-tag "+nm.E+") 0))")
+		tag := "(i-tag (" + fI + " " + recv.E + "))"
+		c.assume(st, "(= ("+fI+" "+nm.E+") (mk-iface "+tag+" "+ref+"))")
+		mh := c.msgHeap()
+		c.heapSet(st, mh, "(store "+c.heapGet(st, mh)+" "+ref+" (|emptyval| "+tag+"))")
+		c.freshMsgs[nm.E] = ref
+		return &nm
+	}
+	if isProtoreflectType(recv.T) && m.Name() == "Interface" {
+		r := c.uninterp(st, "inv$"+shortTypeName(recv.T)+"."+m.Name(), append([]Val{recv}, args...), resT)
+		if ref, ok := c.freshMsgs[recv.E]; ok {
+			r.FreshFrom = ref
+		}
+		return r
+	}
 	if isProtoreflectType(recv.T) {
 		// protoreflect accessors are read-only views: deterministic functions of the receiver (assumed)
 		c.assumed["protoreflect accessors are pure functions of their receiver"] = true
@@ -398,6 +461,22 @@ func (c *FnCtx) invoke(fr *Frame, st *State, recv Val, m *types.Func, args []Val
 	if pm := c.eng.preludeInvoke(recv.T, m); pm != nil {
 		c.assumed["library contract: "+shortTypeName(recv.T)+"."+m.Name()] = true
 		return pm(c, fr, st, recv, m, args, pos)
+	}
+	if cb := c.eng.callbackSpecFor(nil, shortIfaceName(recv.T)+"."+m.Name()); cb != nil {
+		// a method of an open interface with a declared footprint
+		if cb.Pure {
+			c.assumed["interface method "+cb.Name+" is a deterministic function of its receiver and arguments"] = true
+			return c.uninterp(st, "cb$"+cb.Name, append([]Val{recv}, c.pureArgs(st, args)...), resT)
+		}
+		mm := c.eng.patternMods(c, cb.Modifies)
+		mm.alloc = true
+		c.assumed["interface method "+cb.Name+" writes only: "+strings.Join(cb.Modifies, ",")] = true
+		c.havocSet(st, mm, "inv$"+m.Name())
+		var vs []Val
+		for k := 0; k < resT.Len(); k++ {
+			vs = append(vs, c.fresh("inv$"+m.Name(), resT.At(k).Type(), st))
+		}
+		return tupleVal(resT, vs)
 	}
 	impls := c.eng.implementers(recv.T)
 	if len(impls) == 0 || len(impls) > 8 {
@@ -481,7 +560,7 @@ func (c *FnCtx) invoke(fr *Frame, st *State, recv Val, m *types.Func, args []Val
 func (c *FnCtx) tryEvalBool(env *Env, e Expr) (g string, ok bool) {
 	defer func() {
 		if r := recover(); r != nil {
-			if se, isSpec := r.(specError); isSpec && (strings.Contains(string(se), "lastcall(") || strings.Contains(string(se), "unknown name")) {
+			if se, isSpec := r.(specError); isSpec && (strings.Contains(string(se), "lastcall(") || strings.Contains(string(se), "unknown name") || strings.Contains(string(se), "no tracked call")) {
 				ok = false
 				return
 			}
@@ -533,4 +612,11 @@ func isProtoreflectType(t types.Type) bool {
 		return strings.HasSuffix(n.Obj().Pkg().Path(), "reflect/protoreflect")
 	}
 	return false
+}
+
+func shortIfaceName(t types.Type) string {
+	if n, ok := t.(*types.Named); ok {
+		return n.Obj().Name()
+	}
+	return shortTypeName(t)
 }
